@@ -282,3 +282,95 @@ Lemma opcode_level_nonvacuous :
   op_store WVec (HVec (DInts [1%Z])) (v_bool true) (v_int 2) = AErr AEIndex /\
   array_op 136 (HArray (DFloats [0])) v_null 0 = Some (AErr AEIndex).
 Proof. vm_compute. repeat split; reflexivity. Qed.
+
+(* ================================================================== literals and for-each *)
+Lemma apush_contents (d d' : adata) (w : N) :
+  apush d w = Some d' ->
+  kind_of_data d' = kind_of_data d /\ word_fits (kind_of_data d) w = true /\
+  contents d' = contents d ++ [canon (kind_of_data d) w].
+Proof.
+  intro H. destruct d as [l|l|l|l]; cbn [apush] in H.
+  - unfold as_int in *. destruct (is_int w) eqn:I; [|discriminate]. injection H as <-.
+    cbn [kind_of_data word_fits contents canon]. unfold as_int. rewrite I, map_app. repeat split; try reflexivity; exact I.
+  - unfold as_float in *. destruct (is_float w) eqn:I; [|discriminate]. injection H as <-.
+    cbn [kind_of_data word_fits contents canon]. rewrite map_app. repeat split; try reflexivity; exact I.
+  - unfold as_bool in *. destruct (is_bool w) eqn:I; [|discriminate]. injection H as <-.
+    cbn [kind_of_data word_fits contents canon]. unfold as_bool. rewrite I, map_app. repeat split; try reflexivity; exact I.
+  - injection H as <-. cbn [kind_of_data word_fits contents canon]. repeat split; reflexivity.
+Qed.
+
+Lemma push_strict_spec (ws : list N) (d d' : adata) :
+  push_strict d ws = Some d' ->
+  kind_of_data d' = kind_of_data d /\
+  Forall (fun w => word_fits (kind_of_data d) w = true) ws /\
+  contents d' = contents d ++ map (canon (kind_of_data d)) ws.
+Proof.
+  revert d; induction ws as [|w r IH]; intros d H; cbn [push_strict] in H.
+  - injection H as <-. rewrite app_nil_r. repeat split; constructor.
+  - destruct (apush d w) as [d1|] eqn:P; [|discriminate].
+    destruct (apush_contents d d1 w P) as (K1 & F1 & C1).
+    destruct (IH d1 H) as (K2 & F2 & C2). rewrite K1 in *.
+    repeat split; [exact K2 | constructor; assumption |].
+    rewrite C2, C1, <- app_assoc. reflexivity.
+Qed.
+
+(* a literal that is built holds exactly its elements (canonical form), all of the first
+   element's kind; an element of another kind makes the literal a type error *)
+Lemma lit_spec (w : N) (r : list N) (d : adata) :
+  op_lit (w :: r) = Some d ->
+  kind_of_data d = first_kind w /\
+  Forall (fun x => word_fits (first_kind w) x = true) (w :: r) /\
+  contents d = map (canon (first_kind w)) (w :: r).
+Proof.
+  unfold op_lit. intro H. destruct (push_strict_spec (w :: r) _ d H) as (K & F & C).
+  assert (E : kind_of_data (anew (first_kind w) 0) = first_kind w) by (destruct (first_kind w); reflexivity).
+  rewrite E in *. repeat split; [exact K | exact F |].
+  rewrite C. destruct (first_kind w); reflexivity.
+Qed.
+
+Lemma push_strict_mismatch (ws : list N) (d : adata) :
+  Exists (fun x => word_fits (kind_of_data d) x = false) ws -> push_strict d ws = None.
+Proof.
+  revert d; induction ws as [|w r IH]; intros d H; [inversion H|].
+  cbn [push_strict]. destruct (apush d w) as [d1|] eqn:P; [|reflexivity].
+  destruct (apush_contents d d1 w P) as (K1 & F1 & _).
+  inversion H as [? ? Hw|? ? Hr]; subst.
+  - rewrite F1 in Hw. discriminate.
+  - apply IH. rewrite K1. exact Hr.
+Qed.
+
+Lemma lit_mismatch_is_type_error (w : N) (r : list N) :
+  Exists (fun x => word_fits (first_kind w) x = false) r -> op_lit (w :: r) = None.
+Proof.
+  intro H. unfold op_lit. apply push_strict_mismatch.
+  assert (E : kind_of_data (anew (first_kind w) 0) = first_kind w) by (destruct (first_kind w); reflexivity).
+  rewrite E. apply Exists_cons_tl. exact H.
+Qed.
+
+(* for-each: a value that is not a vec, an array or a string is the type error; an element that
+   is produced is the element at an index inside the collection *)
+Lemma each_non_collection (iw : N) : op_each HOther iw = EErr /\ op_each HNone iw = EErr.
+Proof. split; reflexivity. Qed.
+
+Lemma each_elem_spec (o : hobj) (iw w : N) :
+  op_each o iw = EElem w ->
+  exists d z, (o = HArray d \/ o = HVec d) /\ (0 <= z < Z.of_nat (alen d))%Z /\ aget d (Z.to_nat z) = Some w /\
+              z = match as_int iw with Some z => z | None => 0%Z end.
+Proof.
+  unfold op_each. set (i := match as_int iw with Some z => z | None => 0%Z end).
+  destruct o as [d|d|n| |]; try discriminate.
+  - destruct (Z.leb_spec 0 i); [|discriminate]. destruct (dget d i) as [x|] eqn:G; [|discriminate].
+    intro E. injection E as <-. destruct (dget_some d i x H G). exists d, i. repeat split; auto; lia.
+  - destruct (Z.leb_spec 0 i); [|discriminate]. destruct (dget d i) as [x|] eqn:G; [|discriminate].
+    intro E. injection E as <-. destruct (dget_some d i x H G). exists d, i. repeat split; auto; lia.
+  - destruct ((0 <=? i)%Z && (i <? Z.of_nat n)%Z); discriminate.
+Qed.
+
+Lemma lit_each_nonvacuous :
+  op_lit [v_int 1; 0x4004000000000000; v_int 3] = None /\
+  op_lit [v_int 1; v_int 2] = Some (DInts [1%Z; 2%Z]) /\
+  op_lit [v_null; v_int 2] = Some (DObjects [v_null; v_int 2]) /\
+  op_each HOther (v_int 0) = EErr /\
+  op_each (HArray (DInts [5%Z])) (v_int 0) = EElem (v_int 5) /\
+  op_each (HString 2) (v_int 1) = EChar 1 /\ op_each (HVec (DInts [])) (v_int 0) = EEnd.
+Proof. vm_compute. repeat split; reflexivity. Qed.
